@@ -58,10 +58,11 @@ def _shape_structure(kind, NJ, NOPS, NM, unequal):
     return ops_per_job, starts, ends, total
 
 
-def fjsp_job(job_id, kind="fjsp", NJ=2, NOPS=2, NM=2, mask_no_ops=True, unequal=False, B=1, elig="all", source_filter=None):
+def fjsp_job(job_id, kind="fjsp", NJ=2, NOPS=2, NM=2, mask_no_ops=True, unequal=False, B=1, elig="all", source="hand", shard=None, compare_solo=False, source_filter=None):
     """elig: 'all' = every machine eligible for every operation; 'symbolic' = arbitrary eligibility pattern (forked);
     'first' = machine 0 only for operation 0, all machines otherwise (an asymmetric fixed pattern)"""
     E = explore.EXP
+    E.shard = tuple(shard) if shard else None
     ctx = core.Ctx(job_id)
     w = world.make_world(source_filter=source_filter)
     mod = w.load("rl4co.envs.scheduling.fjsp.env")
@@ -74,13 +75,45 @@ def fjsp_job(job_id, kind="fjsp", NJ=2, NOPS=2, NM=2, mask_no_ops=True, unequal=
     pad_to = NJ * NOPS
     gen = types.SimpleNamespace(num_mas=NM, num_jobs=NJ, max_ops_per_job=NOPS, n_ops_max=pad_to)
     cls = jmod.JSSPEnv if kind == "jssp" else mod.FJSPEnv
-    env = cls(generator=gen, mask_no_ops=mask_no_ops, check_mask=True) if False else cls(generator=gen, mask_no_ops=mask_no_ops)
+    if source == "generator":
+        # instances come from the REAL bundled generator (sampler stubs return fresh symbols in the documented range)
+        gp = dict(num_jobs=NJ, num_machines=NM, min_ops_per_job=1, max_ops_per_job=NOPS, min_processing_time=1, max_processing_time=9)
+        if kind == "jssp":
+            gp["one2one_ma_map"] = False
+        else:
+            gp["same_mean_per_op"] = False
+        env = cls(generator_params=gp, mask_no_ops=mask_no_ops)
+        ctx.stubs.add("torch.randint / rand in the generator: fresh symbols in the documented range (every outcome)")
+    else:
+        env = cls(generator=gen, mask_no_ops=mask_no_ops)
     ctx.bounds = {"env": kind, "jobs": NJ, "ops_per_job": ops_per_job, "machines": NM, "mask_no_ops": mask_no_ops, "padded_ops": pad_to, "B": B, "eligibility": elig}
     ctx.assumptions.add("processing times symbolic reals; eligible machine <=> time > 0; every operation has >= 1 eligible machine (JSSP: exactly one); actions = any mask-admitted action")
     bound = 2 * NO + 4
     stats = {"maxsteps": 0}
 
     def harness():
+        nonlocal starts, ends, NO
+        if source == "generator":
+            tdg = env.generator(batch_size=[B])
+            E.obligations = []
+            for k in ("start_op_per_job", "end_op_per_job", "pad_mask"):
+                concretize(E, tdg[k], 0, pad_to + 1)
+            pt = tdg["proc_times"]
+            for x in pt.a.reshape(-1):  # which machine is eligible: fork; the duration itself stays symbolic
+                if is_sym(x):
+                    E.branch(T.s_gt(x, 0))
+            starts = [int(x) for x in tdg["start_op_per_job"].a[0]]
+            ends = [int(x) for x in tdg["end_op_per_job"].a[0]]
+            NO = max(ends) + 1
+            proc = pt.a.copy()
+            for pos in np.ndindex(*proc.shape):
+                x = proc[pos]
+                if is_sym(x) and E.sat(T._real(x) > 0) is False:
+                    proc[pos] = 0.0
+            # ground truth about the instance: jobs own ops start..end; everything behind the last job is padding
+            _run_episode(E, ctx, env, kind, mask_no_ops, TensorDict(dict(tdg.d), batch_size=[B]), proc.copy(), starts, ends, NO, NM, pad_to, B, bound, stats, NJ, NOPS,
+                         pad=[[bool(x) for x in tdg["pad_mask"].a[b]] for b in range(B)])
+            return
         proc = np.empty((B, NM, pad_to), dtype=object)
         for b in range(B):
             for o in range(pad_to):
@@ -122,9 +155,36 @@ def fjsp_job(job_id, kind="fjsp", NJ=2, NOPS=2, NM=2, mask_no_ops=True, unequal=
             "start_op_per_job": T.tensor([starts] * B), "end_op_per_job": T.tensor([ends] * B),
             "proc_times": T.Tensor(proc, T.float32), "pad_mask": T.Tensor(pad, T.bool_),
         }, batch_size=[B])
+        solo = None
+        if compare_solo:
+            env1 = cls(generator=gen, mask_no_ops=mask_no_ops)
+            solo = (env1, TensorDict({k_: T.Tensor(v_.a[:1].copy(), v_.dtype) for k_, v_ in td.d.items()}, batch_size=[1]))
+        _run_episode(E, ctx, env, kind, mask_no_ops, td, orig, starts, ends, NO, NM, pad_to, B, bound, stats, NJ, NOPS, pad=[[bool(x) for x in pad[b]] for b in range(B)], solo=solo)
+
+    try:
+        E.run(harness)
+    except explore.Inconclusive as e:
+        return ctx.result(E, w, status="inconclusive", error=str(e))
+    finally:
+        E.shard = None
+    ctx.witness = []
+    ctx.bounds["max_steps_seen"] = stats["maxsteps"]
+    if shard:
+        ctx.bounds["shard"] = f"{shard[0]} of {shard[1]} (paths split over worker processes by the first three action choices)"
+        if not ctx.obligations:
+            ctx.notes.append("this shard received no complete path (the split is by a hash of the first choices)")
+            return ctx.result(E, w, status="ok")
+    if not ctx.obligations:
+        return ctx.result(E, w, status="error", error="vacuous")
+    return ctx.result(E, w)
+
+
+def _run_episode(E, ctx, env, kind, mask_no_ops, td, orig, starts, ends, NO, NM, pad_to, B, bound, stats, NJ, NOPS, pad, solo=None):
         td = env.reset(td)
         steps = 0
         trace = []
+        td1 = solo[0].reset(solo[1]) if solo else None
+        solo_done = False
 
         def cexb(E_, neg):
             if E_.check(neg) == z3.sat:
@@ -132,7 +192,7 @@ def fjsp_job(job_id, kind="fjsp", NJ=2, NOPS=2, NM=2, mask_no_ops=True, unequal=
                 return [{"kind": "script", "path": core.ROOT + "/vf/torch_side", "module": "sched_side", "func": "run_fjsp", "model_kind": "plain", "mode": "C07",
                          "params": {"kind": kind, "NJ": NJ, "NOPS": NOPS, "NM": NM, "mask_no_ops": mask_no_ops, "starts": starts, "ends": ends, "B": B,
                                     "proc": [[[float(core.model_value(m, orig[b, mm, o])) for o in range(pad_to)] for mm in range(NM)] for b in range(B)],
-                                    "pad": [[bool(x) for x in pad[b]] for b in range(B)], "actions": [list(a) for a in trace]}}]
+                                    "pad": pad, "actions": [list(a) for a in trace]}}]
             return []
 
         while True:
@@ -150,6 +210,23 @@ def fjsp_job(job_id, kind="fjsp", NJ=2, NOPS=2, NM=2, mask_no_ops=True, unequal=
                     raise PathAbort()
                 acts.append(cands[E.choose(len(cands))])
             trace.append(acts)
+            if solo and not solo_done:
+                # C04: the same instance driven alone with the same actions must show the same mask and finishing step
+                m1 = td1["action_mask"].a[0]
+                ctx.prove(E, f"{kind}: row 0 sees the same action mask alone and next to a batch-mate (after {steps} steps)",
+                          _and_all([s_eq(x, y) if (is_sym(x) or is_sym(y)) else bool(x) == bool(y) for x, y in zip(m1, td["action_mask"].a[0])]), cexb)
+                d1 = td1["done"].a.reshape(-1)[0]
+                ctx.prove(E, f"{kind}: row 0 is finished alone exactly when it is finished in the batch (after {steps} steps)", s_eq(d1, done[0]) if is_sym(d1) else bool(d1) == done[0], cexb)
+                if done[0]:
+                    solo_done = True
+                else:
+                    td1.set("action", T.tensor(acts[:1]))
+                    try:
+                        td1 = solo[0].step(td1)["next"]
+                    except ENV_ERRORS as e:
+                        ctx.prove(E, f"{kind}: stepping row 0 alone with the action it took in the batch raises {type(e).__name__} (mask or state differ)", False, cexb)
+                        raise PathAbort()
+                    E.obligations = []
             td.set("action", T.tensor(acts))
             try:
                 td = env.step(td)["next"]
@@ -196,20 +273,14 @@ def fjsp_job(job_id, kind="fjsp", NJ=2, NOPS=2, NM=2, mask_no_ops=True, unequal=
                 mk = T.s_max(mk, F[o])
             named.append(("reward == -(latest completion time)", s_eq(rew, T.s_neg(mk))))
             named.append(("all scheduled times are finite", _and_all(ok)))
+            if solo and b == 0:
+                r1 = solo[0].get_reward(td1, None).a.reshape(-1)[0]
+                named.append(("reward of row 0 equals the reward of the same instance driven alone", s_eq(fin(r1, ok), rew)))
             for nm, cond in named:
                 ctx.prove(E, f"{kind}[no_ops_masked={mask_no_ops}] row {b}: {nm}", cond, cexb)
         if not ctx.witness:
             ctx.witness.append({"note": "complete schedule path"})
 
-    try:
-        E.run(harness)
-    except explore.Inconclusive as e:
-        return ctx.result(E, w, status="inconclusive", error=str(e))
-    ctx.witness = []
-    ctx.bounds["max_steps_seen"] = stats["maxsteps"]
-    if not ctx.obligations:
-        return ctx.result(E, w, status="error", error="vacuous")
-    return ctx.result(E, w)
 
 
 def _and_all(xs):
